@@ -167,6 +167,13 @@ pub struct Cfg {
     /// documentation a configuration that behaves exactly like no markers at all
     #[serde(default)]
     pub markers: bool,
+    /// how `A` and `S` are registered (the reference does not change: rule functions and overlapping rules are transparent)
+    /// 0: `replicate::<A>()`, `replicate::<S>()`;
+    /// 1: `A` with custom (variable-length) serialization and an in-place deserializer, `S` as `(RuleFns, SendRate::EveryTick)`;
+    /// 2: as 1, plus an overlapping two-component rule `(A with other functions, S)` that takes over while an entity has both;
+    /// 3: as 2, but the single rule for `A` has the higher priority, so the overlapping rule only contributes `S`
+    #[serde(default)]
+    pub custom_fns: u8,
 }
 
 impl Default for Cfg {
@@ -199,6 +206,7 @@ impl Default for Cfg {
             owners: false,
             entity_offset: 0,
             markers: false,
+            custom_fns: 0,
         }
     }
 }
